@@ -88,8 +88,36 @@ func QRstep(H, U Matrix, p, q int, inSitu *InSitu) {
   t2 := inSitu.T2
   t3 := inSitu.T3
 
-  // shift
+  // shift: eigenvalue of the trailing 2x2 block that is closer to its last
+  // diagonal element (Wilkinson shift). The plain Rayleigh shift h22 equals
+  // the mean of the two eigenvalues whenever h11 == h22, in which case the
+  // iteration cycles between two states and never converges
   t3.Set(H22.At(n-1, n-1))
+  if n >= 2 {
+    h11 := H22.At(n-2, n-2)
+    h12 := H22.At(n-2, n-1)
+    h21 := H22.At(n-1, n-2)
+    h22 := H22.At(n-1, n-1)
+    // t1 = (h11 - h22)/2, t2 = t1^2 + h12 h21
+    t1.Sub(h11, h22)
+    t1.Div(t1, ConstFloat64(2.0))
+    t2.Mul(t1, t1)
+    t3.Mul(h12, h21)
+    t2.Add(t2, t3)
+    // t3 = (h11 + h22)/2
+    t3.Add(h11, h22)
+    t3.Div(t3, ConstFloat64(2.0))
+    // QRstep is applied to blocks with real eigenvalues only; a
+    // non-positive discriminant is the rounding of a double eigenvalue
+    if t2.GetFloat64() > 0.0 {
+      t2.Sqrt(t2)
+      if t1.GetFloat64() > 0.0 {
+        t3.Sub(t3, t2)
+      } else {
+        t3.Add(t3, t2)
+      }
+    }
+  }
   for i := 0; i < n; i++ {
     g := H22.At(i, i)
     g.Sub(g, t3)
@@ -312,9 +340,13 @@ func qrAlgorithm(inSitu *InSitu, epsilon float64) (Matrix, Matrix, error) {
     for {
       verifhook.Tick("qrAlgorithm.block2x2")
       h11 := h.ConstAt(i  ,i  ).GetFloat64()
+      h12 := h.ConstAt(i  ,i+1).GetFloat64()
       h21 := h.ConstAt(i+1,i  ).GetFloat64()
       h22 := h.ConstAt(i+1,i+1).GetFloat64()
-      if math.Abs(h21) <= epsilon*(math.Abs(h11) + math.Abs(h22)) {
+      // the test is relative to the whole block: a defective block with a
+      // (nearly) zero double eigenvalue has a tiny diagonal, and h21 cannot
+      // fall below the rounding level of h12
+      if math.Abs(h21) <= epsilon*(math.Abs(h11) + math.Abs(h12) + math.Abs(h22)) {
         h.At(i+1,i).SetFloat64(0.0)
         break
       } else {
